@@ -144,6 +144,35 @@ def _simple(e) -> bool:
     return False
 
 
+_PURE_CALLS = {"len", "int", "str", "bool", "float", "bytes", "tuple", "list", "min", "max", "abs", "isinstance", "repr"}
+
+
+def _pure(e) -> bool:
+    """no effect, no dependence on anything but the values of the names it mentions"""
+    for n in ast.walk(e):
+        if isinstance(n, ast.Call):
+            if not (isinstance(n.func, ast.Name) and n.func.id in _PURE_CALLS) or n.keywords:
+                return False
+        elif isinstance(n, (ast.Lambda, ast.ListComp, ast.SetComp, ast.DictComp, ast.GeneratorExp, ast.Await, ast.Yield, ast.YieldFrom, ast.NamedExpr, ast.Starred)):
+            return False
+    return True
+
+
+def _single_straight_use(fn, p: str) -> bool:
+    uses = [n for n in ast.walk(fn) if isinstance(n, ast.Name) and n.id == p and isinstance(n.ctx, ast.Load)]
+    if len(uses) != 1:
+        return False
+    u = uses[0]
+
+    def inside(kinds):
+        for n in ast.walk(fn):
+            if n is not fn and isinstance(n, kinds) and any(x is u for x in ast.walk(n)):
+                return True
+        return False
+
+    return not inside((ast.For, ast.While, ast.AsyncFor, ast.ListComp, ast.SetComp, ast.DictComp, ast.GeneratorExp, ast.Lambda, ast.FunctionDef, ast.AsyncFunctionDef))
+
+
 class _Subst(ast.NodeTransformer):
     def __init__(self, mapping: dict[str, ast.AST]):
         self.mapping = mapping
@@ -284,6 +313,9 @@ class Inliner:
         for p in pos + kwonly:
             v = given[p]
             if p not in stored and _simple(v) and not (isinstance(v, ast.Name) and v.id in stored):
+                mapping[p] = v
+            elif p not in stored and _pure(v) and _single_straight_use(fn, p) and not ({n.id for n in ast.walk(v) if isinstance(n, ast.Name)} & stored):
+                # read once, outside any loop / comprehension / lambda: the argument takes the place of the parameter
                 mapping[p] = v
             else:
                 new = p if p not in host_names["all"] else p + tag
@@ -543,6 +575,35 @@ class Inliner:
             setattr(st, fld, Undo().visit(getattr(st, fld)))
             return None
         ast.fix_missing_locations(st)
+        # a simple statement is sunk into the exits: `tmp = V` at the end of a path becomes the statement with V in the place of the call
+        # (`xs.extend(helper(a))` with `return [a]` / `return [a] * n` in the helper -> `if ..: xs.extend([a]) else: xs.extend([a] * n)`)
+        uses = sum(1 for n in ast.walk(st) if isinstance(n, ast.Name) and n.id == tmp)
+        n_exits = sum(1 for f in first for n in ast.walk(f) if isinstance(n, ast.Assign) and len(n.targets) == 1 and isinstance(n.targets[0], ast.Name) and n.targets[0].id == tmp)
+        if isinstance(st, (ast.Expr, ast.Assign, ast.AugAssign, ast.AnnAssign, ast.Return, ast.Raise)) and uses == 1 and 1 <= n_exits <= 6:
+            def with_value(v):
+                class Put(ast.NodeTransformer):
+                    def visit_Name(self_, node):
+                        return copy.deepcopy(v) if node.id == tmp else node
+
+                return ast.fix_missing_locations(Put().visit(copy.deepcopy(st)))
+
+            def sink(stmts):
+                out = []
+                for f in stmts:
+                    if isinstance(f, ast.Assign) and len(f.targets) == 1 and isinstance(f.targets[0], ast.Name) and f.targets[0].id == tmp:
+                        out.append(with_value(f.value))
+                        continue
+                    for fld_ in ("body", "orelse", "finalbody"):
+                        b = getattr(f, fld_, None)
+                        if isinstance(b, list) and b and isinstance(b[0], ast.stmt):
+                            setattr(f, fld_, sink(b))
+                    for h in getattr(f, "handlers", []) or []:
+                        h.body = sink(h.body)
+                    out.append(f)
+                return out
+
+            sunk = sink(first)
+            return self.expand_block(sunk, host_cls, self._host_names_from(host_names, sunk), stack)
         rest = self.expand_stmt(st, host_cls, self._host_names_from(host_names, first), stack)
         return first + (rest if rest is not None else [st])
 
